@@ -34,7 +34,7 @@ func Main(c16 bool) {
 	ck.Run(corpus)
 
 	tokLen, conLen, nLayout, nMal, nFault := 5, 6, 50000, 50000, 0
-	prefLen := 4
+	prefLen := 5
 	if f.Thorough() {
 		tokLen, conLen, nLayout, nMal = 6, 7, 2000000, 1000000
 		prefLen = 5
